@@ -556,6 +556,20 @@ Section AcSeg.
   Qed.
 End AcSeg.
 
+Lemma iszero_pred_not_lab F : forall n o P, iszero_pred n F o = Some P -> is_lab P = false.
+Proof.
+  induction n as [|n IH]; intros o P H; [discriminate|]. cbn [iszero_pred] in H.
+  destruct o as [v|x|l]; try discriminate.
+  destruct (find_fact F x) as [[op args]|]; [|discriminate].
+  destruct (String.eqb op "assign").
+  - destruct args as [|a [|? ?]]; try discriminate. exact (IH a P H).
+  - destruct (String.eqb op "iszero"); [|discriminate]. destruct args as [|p [|? ?]]; try discriminate.
+    destruct p; try discriminate; injection H as <-; reflexivity.
+Qed.
+
+Lemma silent_or P Q x : is_lab P = false -> is_lab Q = false -> silent (mkI "or" [P; Q] [x]) = true.
+Proof. intros LP LQ. unfold silent, determined, sem_fun. cbn [i_args i_outs i_op has_label existsb]. rewrite LP, LQ. reflexivity. Qed.
+
 (* ------------------------------------------------------------------ Part 4: one step on a function, and the pass *)
 Lemma facts_step_phi_nil i : is_phi i = true -> facts_step [] i = [].
 Proof.
@@ -648,7 +662,7 @@ Section AcFunc.
     destruct (ac_find_split nv blkI [] blkI' k F0) as [preI [a [m [ta [P [l [l' [E1 [E2 [Ao [Aa [Au [Pa SC]]]]]]]]]]]]].
     destruct (ac_scan_split P ta m nv l _ l' k SC) as [SxI [j [tb [Q [postI [X [E3 [E4 [Jo [Ja [Ju [HSx [Pb [Pa2 [BP [BQ HX]]]]]]]]]]]]]]]].
     set (f := strip L) in *. set (f' := strip L') in *.
-    set (preB := map fst preI). set (Sx := map fst SxI). set (post := map fst postI). set (Xi := map fst X).
+    set (preB := map fst preI) in *. set (Sx := map fst SxI) in *. set (post := map fst postI) in *. set (Xi := map fst X) in *.
     destruct a as [aop aargs aouts]. cbn [i_op i_args i_outs] in Ao, Aa, Au. subst aop aargs aouts.
     destruct j as [jop jargs jouts]. cbn [i_op i_args i_outs] in Jo, Ja, Ju. subst jop jargs jouts.
     set (a := mkI "assert" [OVar ta] []) in *. set (j := mkI "assert" [OVar tb] []) in *.
@@ -663,7 +677,7 @@ Section AcFunc.
     destruct (block_split preB) as [phs [p [Ep [Ff Hsplit]]]].
     assert (Fa_eq : facts_step (fold_left facts_step preB []) a = fold_left facts_step p []).
     { rewrite facts_step_noouts by reflexivity. exact Ff. }
-    fold preB in Pa. rewrite Ff in Pa. rewrite Fa_eq in Pb, Pa2.
+    rewrite Ff in Pa. rewrite Fa_eq in Pb, Pa2.
     set (Fa := fold_left facts_step p []) in *.
     (* below *)
     assert (BB : forallb (inst_below nv) (nth b0 f []) = true).
@@ -678,7 +692,7 @@ Section AcFunc.
     assert (Bp : forallb (inst_below nv) p = true).
     { rewrite Ep in Bpre. apply (inst_below_app nv phs p Bpre). }
     (* shape of the rewritten tail *)
-    assert (HXi : (P = Q /\ Xi = [j]) \/ Xi = Xmerged P Q nv m).
+    assert (HXi : (P = Q /\ Xi = [j]) \/ Xi = Xmerged nv P Q m).
     { destruct HX as [[EPQ [-> _]] | [_ [-> _]]]; [left; split; [exact EPQ | reflexivity] | right; reflexivity]. }
     assert (Xne : exists x0 xr, Xi = x0 :: xr /\ is_phi x0 = false).
     { destruct HXi as [[_ ->] | ->]; eexists; eexists; (split; [reflexivity | reflexivity]). }
@@ -718,7 +732,7 @@ Section AcFunc.
     assert (SxSafe : forall i, In i Sx -> ac_safe i = true).
     { intros i Hi. unfold Sx in Hi. apply in_map_iff in Hi as [it [<- Hit]]. rewrite Forall_forall in HSx. exact (proj1 (HSx it Hit)). }
     split.
-    - apply (seg_sim f f' nv lv env (N.of_nat b0) p (a :: Sx ++ [j]) (Sx ++ Xi) post J LV Hph Hphb Hbd Hob Hb0 Hb0' Bp Bpost J_init J_step).
+    - apply (seg_sim f f' nv lv env (N.of_nat b0) p (a :: Sx ++ [j]) (Sx ++ Xi) post J Hph Hphb Hbd Hob Hb0 Hb0' Bp Bpost J_init J_step).
       + intros i c l0 c' Hi I. destruct Hi as [<-|Hi]; [destruct (istep_assert_inv lv env _ c l0 c' I) as [_ [E _]]; exact E|].
         apply in_app_or in Hi as [Hi|[<-|[]]]; [exact (safe_label lv env i c l0 c' (SxSafe i Hi) I)|].
         destruct (istep_assert_inv lv env _ c l0 c' I) as [_ [E _]]. exact E.
@@ -726,30 +740,52 @@ Section AcFunc.
         apply (safe_facts lv i (fun _ => 0) (SxSafe i Hi)).
       + discriminate.
       + intros c c' cn A O On Jc Jn Xe.
-        exact (P1_fwd lv env nv Fa ta tb P Q SxI m LV EV HSx Pb Pa2 BP BQ Bta Btb BSx Xi HXi c c' cn A O On (J_nil c Jc) (J_nil cn Jn) Xe).
+        exact (P1_fwd lv env nv Fa ta tb P Q SxI m LV HSx Pb Pa2 BP Bta Btb BSx Xi HXi c c' cn A O On (J_nil c Jc) (J_nil cn Jn) Xe).
       + intros c cn o A O On Jc Jn Xe.
-        exact (P2_fwd lv env nv Fa ta tb P Q SxI m LV EV HSx Pb Pa2 BP BQ Bta Btb BSx Xi HXi c cn o A O On (J_nil c Jc) (J_nil cn Jn) Xe).
+        exact (P2_fwd lv env nv Fa ta tb P Q SxI m LV EV HSx Pb Pa2 BP Bta Btb BSx Xi HXi c cn o A O On (J_nil c Jc) (J_nil cn Jn) Xe).
       + exact C0.
     - assert (Hphb' : forall b, forallb (inst_below nv) (leading_phis (nth_block f' b)) = true) by (intros b; rewrite Hph; apply Hphb).
       assert (Hob' : forall b, b <> N.of_nat b0 -> forallb (inst_below nv) (body (nth_block f' b)) = true)
         by (intros b Ne; rewrite (Hbd b Ne); apply Hob; exact Ne).
-      apply (seg_sim f' f nv lv env (N.of_nat b0) p (Sx ++ Xi) (a :: Sx ++ [j]) post J LV (fun b => eq_sym (Hph b)) Hphb'
+      apply (seg_sim f' f nv lv env (N.of_nat b0) p (Sx ++ Xi) (a :: Sx ++ [j]) post J (fun b => eq_sym (Hph b)) Hphb'
                (fun b Ne => eq_sym (Hbd b Ne)) Hob' Hb0' Hb0 Bp Bpost J_init J_step).
       + intros i c l0 c' Hi I. apply in_app_or in Hi as [Hi|Hi]; [exact (safe_label lv env i c l0 c' (SxSafe i Hi) I)|].
         destruct I as [_ [_ [_ [_ Lb]]]]. rewrite Lb.
+        assert (LP : is_lab P = false) by exact (iszero_pred_not_lab _ _ _ _ Pa).
+        assert (LQ : is_lab Q = false) by exact (iszero_pred_not_lab _ _ _ _ Pb).
         destruct HXi as [[_ ->] | ->]; cbn in Hi.
-        * destruct Hi as [<-|[]]. rewrite silent_assert. reflexivity.
-        * destruct Hi as [<-|[<-|[<-|[]]]]; [| reflexivity | rewrite silent_assert; reflexivity].
-          destruct (pred_of Fa (OVar ta)); reflexivity || idtac.
-          unfold silent, determined, sem_fun. cbn [i_args i_outs i_op has_label existsb].
-          assert (LP : is_lab P = false) by (destruct P; [reflexivity | reflexivity | cbn in BP; discriminate BP || reflexivity]).
-          idtac. admit.
-      + admit.
-      + admit.
+        * destruct Hi as [<-|[]]. unfold j. rewrite silent_assert. reflexivity.
+        * destruct Hi as [<-|[<-|[<-|[]]]]; [rewrite (silent_or P Q nv LP LQ); reflexivity | reflexivity | rewrite silent_assert; reflexivity].
+      + intros i Hi. apply in_app_or in Hi as [Hi|Hi]; [apply (safe_facts lv i (fun _ => 0) (SxSafe i Hi))|].
+        destruct HXi as [[_ ->] | ->]; cbn in Hi.
+        * destruct Hi as [<-|[]]. reflexivity.
+        * destruct Hi as [<-|[<-|[<-|[]]]]; reflexivity.
+      + destruct Xne as [x0 [xr [-> _]]]. destruct Sx; discriminate.
       + intros x x' y A Ox Oy Jx Jy Xe.
-        exact (P1_bwd lv env nv Fa ta tb P Q SxI m LV EV HSx Pb Pa2 BP BQ Bta Btb BSx Xi HXi x x' y A Ox Oy (J_nil x Jx) (J_nil y Jy) Xe).
+        exact (P1_bwd lv env nv Fa ta tb P Q SxI m LV HSx Pb Pa2 BP Bta Btb BSx Xi HXi x x' y A Ox Oy (J_nil x Jx) (J_nil y Jy) Xe).
       + intros x y o A Ox Oy Jx Jy Xe.
-        exact (P2_bwd lv env nv Fa ta tb P Q SxI m LV EV HSx Pb Pa2 BP BQ Bta Btb BSx Xi HXi x y o A Ox Oy (J_nil x Jx) (J_nil y Jy) Xe).
+        exact (P2_bwd lv env nv Fa ta tb P Q SxI m LV HSx Pb Pa2 BP Bta Btb BSx Xi HXi x y o A Ox Oy (J_nil x Jx) (J_nil y Jy) Xe).
       + exact C0.
-  Abort.
+  Qed.
 End AcFunc.
+
+Theorem ac_iter_correct : forall fuel nv l, beh_equiv (strip l) (strip (ac_iter fuel nv l)).
+Proof.
+  induction fuel as [|n IH]; intros nv l; cbn [ac_iter]; [apply beh_equiv_refl|].
+  destruct (func_below nv (strip l)) eqn:FB; [|apply beh_equiv_refl].
+  destruct (ac_step nv l) as [[l' k]|] eqn:E; [|apply beh_equiv_refl].
+  eapply beh_equiv_trans; [exact (ac_step_correct l nv l' k FB E) | apply IH].
+Qed.
+
+Lemma strip_zip f : forall M, strip (zip_func f M) = f.
+Proof.
+  assert (Z : forall b ms, map fst (zip_msgs b ms) = b).
+  { induction b as [|i t IH]; intros ms; [reflexivity|]. destruct ms; cbn; rewrite IH; reflexivity. }
+  induction f as [|b t IH]; intros M; [reflexivity|]. destruct M; cbn; unfold strip in IH; rewrite IH, Z; reflexivity.
+Qed.
+
+(* AssertCombinerPass (the model ac_pass) preserves behaviour *)
+Theorem ac_pass_correct f M nv : beh_equiv f (ac_pass f M nv).
+Proof.
+  unfold ac_pass. rewrite <- (strip_zip f M) at 1. apply ac_iter_correct.
+Qed.
